@@ -496,6 +496,14 @@ impl VxPad2 for u32 { open spec fn ival(self) -> int { self as int } #[verifier:
 impl VxPad2 for u8 { open spec fn ival(self) -> int { self as int } #[verifier::external_body] fn vx_pad2(self) -> (r: String) { format!("{:02}", self) } }
 impl VxPad2 for usize { open spec fn ival(self) -> int { self as int } #[verifier::external_body] fn vx_pad2(self) -> (r: String) { format!("{:02}", self) } }
 
+// ---------------------------------------------------------------- f64 (machine floating point is NOT modelled: comparisons are uninterpreted predicates)
+pub uninterp spec fn abs_lt(x: f64, bound: f64) -> bool;
+pub trait VxF64: Sized { spec fn fv(self) -> f64; fn vx_abs_lt(self, bound: f64) -> (r: bool) ensures r == abs_lt(self.fv(), bound); }
+impl VxF64 for f64 {
+    open spec fn fv(self) -> f64 { self }
+    #[verifier::external_body] fn vx_abs_lt(self, bound: f64) -> (r: bool) { self.abs() < bound }
+}
+
 // ---------------------------------------------------------------- Vec idioms
 pub trait VxVec<T> {
     spec fn vv(&self) -> Seq<T>;
@@ -518,6 +526,19 @@ pub fn vec_all<T, F: Fn(&T) -> bool>(v: &Vec<T>, f: F) -> (r: bool)
     ensures r ==> forall|i: int| 0 <= i < v@.len() ==> call_ensures(f, (&#[trigger] v@[i],), true),
             !r ==> exists|i: int| 0 <= i < v@.len() && call_ensures(f, (&#[trigger] v@[i],), false)
 { v.iter().all(f) }
+
+#[verifier::external_body]
+pub fn opt_vec_any<T, F: Fn(&T) -> bool>(o: Option<&Vec<T>>, f: F) -> (r: bool)
+    requires o.is_some() ==> forall|i: int| 0 <= i < o.unwrap()@.len() ==> call_requires(f, (&#[trigger] o.unwrap()@[i],))
+    ensures r ==> o.is_some() && exists|i: int| 0 <= i < o.unwrap()@.len() && call_ensures(f, (&#[trigger] o.unwrap()@[i],), true),
+            !r ==> o.is_none() || forall|i: int| 0 <= i < o.unwrap()@.len() ==> call_ensures(f, (&#[trigger] o.unwrap()@[i],), false)
+{ o.is_some_and(|v| v.iter().any(f)) }
+#[verifier::external_body]
+pub fn opt_vec_all<T, F: Fn(&T) -> bool>(o: Option<&Vec<T>>, f: F) -> (r: bool)
+    requires o.is_some() ==> forall|i: int| 0 <= i < o.unwrap()@.len() ==> call_requires(f, (&#[trigger] o.unwrap()@[i],))
+    ensures r ==> o.is_some() && forall|i: int| 0 <= i < o.unwrap()@.len() ==> call_ensures(f, (&#[trigger] o.unwrap()@[i],), true),
+            !r ==> o.is_none() || exists|i: int| 0 <= i < o.unwrap()@.len() && call_ensures(f, (&#[trigger] o.unwrap()@[i],), false)
+{ o.is_some_and(|v| v.iter().all(f)) }
 
 } // verus!
 } // mod vx
